@@ -840,6 +840,157 @@ func verifDeterministic(a, b JsonNode, options []Option) bool {
 	return true
 }
 
+// verifPatchVariant: a subset-preserving variation of a JSON Patch that jd rendered (C10's
+// quantifier): 0 as rendered; 1 first context test dropped; 2 every context test dropped;
+// 3 the index of every add replaced by "-" (append); 4 the values of every test/remove pair changed
+// consistently; 5 every array index shifted by one; 6 the ops of the first hunk dropped.
+func verifPatchVariant(p string, v int) (string, bool) {
+	var ops []map[string]interface{}
+	if err := json.Unmarshal([]byte(p), &ops); err != nil {
+		return "", false
+	}
+	isCtx := func(i int) bool {
+		if ops[i]["op"] != "test" {
+			return false
+		}
+		return !(i+1 < len(ops) && ops[i+1]["op"] == "remove" && ops[i+1]["path"] == ops[i]["path"])
+	}
+	lastTok := func(path string) (string, string) {
+		j := strings.LastIndex(path, "/")
+		if j < 0 {
+			return "", path
+		}
+		return path[:j], path[j+1:]
+	}
+	var out []map[string]interface{}
+	switch v {
+	case 0:
+		out = ops
+	case 1, 2:
+		dropped := false
+		for i := range ops {
+			if isCtx(i) && (v == 2 || !dropped) {
+				dropped = true
+				continue
+			}
+			out = append(out, ops[i])
+		}
+		if !dropped {
+			return "", false
+		}
+	case 3:
+		changed := false
+		for _, op := range ops {
+			if ps, ok := op["path"].(string); ok && op["op"] == "add" {
+				head, tok := lastTok(ps)
+				if _, err := strconv.Atoi(tok); err == nil {
+					op["path"] = head + "/-"
+					changed = true
+				}
+			}
+			out = append(out, op)
+		}
+		if !changed {
+			return "", false
+		}
+	case 4:
+		changed := false
+		for i, op := range ops {
+			if op["op"] == "test" && !isCtx(i) {
+				op["value"] = float64(7)
+				ops[i+1]["value"] = float64(7)
+				changed = true
+			}
+			out = append(out, op)
+		}
+		if !changed {
+			return "", false
+		}
+	case 5:
+		changed := false
+		for _, op := range ops {
+			if ps, ok := op["path"].(string); ok {
+				head, tok := lastTok(ps)
+				if n, err := strconv.Atoi(tok); err == nil && n >= 0 {
+					op["path"] = head + "/" + strconv.Itoa(n+1)
+					changed = true
+				}
+			}
+			out = append(out, op)
+		}
+		if !changed {
+			return "", false
+		}
+	case 6:
+		// a hunk ends after its last add, or after a remove that is not followed by another test/remove pair or add
+		end := -1
+		for i := range ops {
+			if ops[i]["op"] == "add" && (i+1 == len(ops) || ops[i+1]["op"] != "add") {
+				end = i
+				break
+			}
+			if ops[i]["op"] == "remove" && (i+1 == len(ops) || (ops[i+1]["op"] == "test" && isCtx(i+1))) {
+				end = i
+				break
+			}
+		}
+		if end < 0 || end+1 >= len(ops) {
+			return "", false
+		}
+		out = ops[end+1:]
+	default:
+		return "", false
+	}
+	if out == nil {
+		out = []map[string]interface{}{}
+	}
+	b, err := json.Marshal(out)
+	if err != nil {
+		return "", false
+	}
+	return string(b), true
+}
+
+// verifReadPatchVariations (C10): for the variation v of the patch jd renders for (a, b) and the
+// targets a, b and c: when jd reads the patch and applies it successfully, the independent
+// RFC 6902 evaluation of the same patch on the same target succeeds with the same result.
+func verifReadPatchVariations(a, b, c JsonNode, v int) string {
+	if isVoid(a) || isVoid(b) || isVoid(c) || !verifPointerExpressible(a) || !verifPointerExpressible(b) || !verifPointerExpressible(c) {
+		return ""
+	}
+	p0, err := a.Diff(b).RenderPatch()
+	if err != nil {
+		return ""
+	}
+	p, ok := verifPatchVariant(p0, v)
+	if !ok {
+		return ""
+	}
+	d, err := ReadPatchString(p)
+	if err != nil {
+		return "" // stricter than the RFC is allowed
+	}
+	for _, target := range []JsonNode{a, b, c} {
+		r, err := verifCloneNode(target).Patch(verifCloneDiff(d))
+		if err != nil {
+			continue
+		}
+		ref, rerr := verifRFC6902(verifPlain(target), p)
+		if rerr != nil {
+			return "jd applies " + p + " to " + target.Json() + " but RFC 6902 evaluation fails: " + rerr.Error()
+		}
+		if !verifPlainEq(ref, verifPlain(r), nil) {
+			return "jd applies " + p + " to " + target.Json() + " and gives " + r.Json() + ", RFC 6902 evaluation gives something else"
+		}
+	}
+	return ""
+}
+
+// verifReadPatchVariationsSmall: the same over all small arrays of numbers.
+func verifReadPatchVariationsSmall(a, b, c JsonNode, v int) string {
+	return verifReadPatchVariations(a, b, c, v)
+}
+
 // verifReadPatchKeys (C10): the same statement with a as the only target, over all the keys that need
 // (or seem to need) pointer escaping, non-ASCII keys included.
 func verifReadPatchKeys(a, b JsonNode) bool { return verifReadPatchFaithful(a, b, a) }
